@@ -3,6 +3,7 @@
 # certain rights in this software.
 import numpy
 
+from jaqalpaq.error import JaqalError
 from jaqalpaq.core.algorithm.walkers import TraceSerializer
 from jaqalpaq.core.result import ProbabilisticSubcircuit, ReadoutSubcircuit
 from jaqalpaq.emulator.backend import IndependentSubcircuitsBackend
@@ -73,6 +74,11 @@ class UnitarySerializedEmulator(IndependentSubcircuitsBackend):
                     # Follow map aliases back to the fundamental register
                     _reg, qubit_index = val.resolve_qubit()
                     qind.append(qubit_index)
+
+            if len(set(qind)) != len(qind):
+                raise JaqalError(
+                    f"Gate {gate.name} acts on the same qubit more than once."
+                )
 
             # This is the dense submatrix
             dsub = gatedef.ideal_unitary(*argv)
